@@ -21,11 +21,11 @@ theorem tokCls_spec (c : Nat) (r : List Nat) (cls : Cls) (r1 : List Nat) (h : to
     c ≠ 40 ∧ c ≠ 41 ∧ ¬ (c = 37 ∧ r.head? = some 98) ∧ ¬ (c = 37 ∧ r.head? = some 102) ∧
     ¬ (c = 37 ∧ (r.head?.map isDigit) = some true) ∧ classEnd (c :: r) = .ok (cls, r1) := by
   unfold tokCls at h
-  by_cases h0 : c = 0 ∨ c = 40 ∨ c = 41
+  by_cases h0 : c = 40 ∨ c = 41
   · simp [h0] at h
   · simp only [h0, if_false] at h
-    have h40 : c ≠ 40 := fun e => h0 (Or.inr (Or.inl e))
-    have h41 : c ≠ 41 := fun e => h0 (Or.inr (Or.inr e))
+    have h40 : c ≠ 40 := fun e => h0 (Or.inl e)
+    have h41 : c ≠ 41 := fun e => h0 (Or.inr e)
     by_cases h37 : c = 37
     · subst h37
       simp only [if_true] at h
@@ -33,14 +33,14 @@ theorem tokCls_spec (c : Nat) (r : List Nat) (cls : Cls) (r1 : List Nat) (h : to
       | nil => simp at h
       | cons cl r' =>
         simp only at h
-        by_cases hcl : cl = 0 ∨ isDigit cl = true ∨ cl = 98 ∨ cl = 102
+        by_cases hcl : isDigit cl = true ∨ cl = 98 ∨ cl = 102
         · simp [hcl] at h
         · simp only [hcl, if_false, Option.some.injEq, Prod.mk.injEq] at h
           obtain ⟨rfl, rfl⟩ := h
           refine ⟨by omega, by omega, ?_, ?_, ?_, ?_⟩
-          · simp only [List.head?_cons, Option.some.injEq, true_and]; intro e; exact hcl (Or.inr (Or.inr (Or.inl e)))
-          · simp only [List.head?_cons, Option.some.injEq, true_and]; intro e; exact hcl (Or.inr (Or.inr (Or.inr e)))
-          · simp only [List.head?_cons, Option.map_some, Option.some.injEq, true_and]; intro e; exact hcl (Or.inr (Or.inl e))
+          · simp only [List.head?_cons, Option.some.injEq, true_and]; intro e; exact hcl (Or.inr (Or.inl e))
+          · simp only [List.head?_cons, Option.some.injEq, true_and]; intro e; exact hcl (Or.inr (Or.inr e))
+          · simp only [List.head?_cons, Option.map_some, Option.some.injEq, true_and]; intro e; exact hcl (Or.inl e)
           · simp [classEnd]
     · simp only [h37, if_false] at h
       refine ⟨h40, h41, by simp [h37], by simp [h37], by simp [h37], ?_⟩
@@ -55,8 +55,8 @@ theorem tokCls_spec (c : Nat) (r : List Nat) (cls : Cls) (r1 : List Nat) (h : to
           rw [hce] at h
           cases cl with
           | set content =>
-            by_cases hg : setOK (setBody content) = true ∧ ¬ content.contains 0 = true
-            · simp only [hg, and_self, if_true, Option.some.injEq, Prod.mk.injEq] at h
+            by_cases hg : setOK (setBody content) = true
+            · simp only [hg, if_true, Option.some.injEq, Prod.mk.injEq] at h
               obtain ⟨rfl, rfl⟩ := h
               rfl
             · simp only [hg, if_false] at h
